@@ -218,6 +218,22 @@ CHECKS = {
         note="State key is the size structure of held bundles (payload ids are a relabelling); sizes outside the alphabet are not covered.",
         design_ref="2 C16",
     ),
+    "C17": dict(
+        category="exploration",
+        technique="bounded-exhaustive structure-aware enumeration: every truncation and every single-node mutation of the protobuf wire tree of valid encodings (pairs for small encodings in thorough), fed to the public decode entry points under catch_unwind with independent re-verification of accepted values",
+        text=("For each valid encoding (signed transaction with 1 and 2 actions; sequencer block with 2 rollups and a deposit, with and "
+              "without extended commit info; filtered block; Celestia metadata; Celestia rollup item; sequenced-data and deposit entries; the "
+              "conductor's header / rollup blob lists and the compressed blob bytes): every truncation of the encoding and every single-node "
+              "mutation of its wire tree from the menu {delete, duplicate, swap with next sibling, renumber field, integer := 0, 1, +-1, "
+              "i32/u32/u64 max, 2^32, 2^63; bytes := empty, minus first / last byte, plus a byte, bit flips, zeros; declared length +-1 and "
+              "2^31; sub-message := empty / cut}; compressed blob: every single-byte flip and truncation; thorough: every pair of mutations for "
+              "the small encodings. Entry points: Transaction / SequencerBlock / FilteredSequencerBlock / SubmittedMetadata / "
+              "SubmittedRollupData / RollupData ::try_from_raw after prost decoding, and the conductor's decode_raw_blobs. Oracle: no panic; "
+              "an accepted value re-encodes to a fixed point, its signature and Merkle proofs verify when recomputed independently from the "
+              "accepted fields, and the checked forms derived from it (filtered block, Celestia metadata and items) validate."),
+        note="Mutations outside the menu (two independent edits in the large encodings, forgeries needing a fresh signature) are not covered; the sequencer's CheckedTransaction::new is reached through Transaction::try_from_raw, whose decoding is covered here.",
+        design_ref="2 C17",
+    ),
     "C18": dict(
         category="model_checking",
         technique="explicit-state BFS over real Ics20Withdrawal transactions and the real Ics20Transfer packet handlers with a reference escrow ledger",
